@@ -186,26 +186,37 @@ pub fn one(acc: &mut Acc, c: &IncCase) {
     // both entry points: file and string
     let r1 = api::pp_file(Path::new(&w.top), &to_defs(&[]), &inc_paths, false, c.ignore);
     let r2 = api::pp_str(&top_src, Path::new(&w.top), &to_defs(&[]), &inc_paths, c.ignore, false);
+    // the flags travel down the include chain: with strip_comments the same files must be spliced
+    let r3 = api::pp_file(Path::new(&w.top), &to_defs(&[]), &inc_paths, true, c.ignore);
+    acc.transitions += 1;
     for p in &made {
         let _ = std::fs::remove_file(p);
     }
     // F12: the white space behind `include `MACRO is dropped, which shows only when the included file
     // does not end with a line end. Recognised by repairing the input: the same case with a final
     // line end in every included file must pass every oracle.
-    let mut f12: Option<Option<String>> = None;
-    let mut sig_f12 = |acc: &mut Acc| -> Option<String> {
-        if c.style != 2 || c.tail == 0 {
+    let mut repaired_passes: Option<bool> = None;
+    let mut sig_f12 = |acc: &mut Acc, which: &str| -> Option<String> {
+        if c.tail == 0 {
             return None;
         }
-        if f12.is_none() {
+        let strip_route = which.ends_with(")");
+        if !strip_route && c.style != 2 {
+            return None;
+        }
+        if repaired_passes.is_none() {
             let mut sc = acc.scratch();
             one(&mut sc, &IncCase { tail: 0, ..c.clone() });
             acc.transitions += sc.transitions;
-            f12 = Some(if sc.violation_count == 0 { Some(SIG_F12.to_string()) } else { None });
+            repaired_passes = Some(sc.violation_count == 0);
         }
-        f12.clone().unwrap()
+        if repaired_passes != Some(true) {
+            return None;
+        }
+        // F5 under strip_comments (the line end behind the directive goes with the stripped trivia), F12 otherwise
+        Some(if strip_route { crate::props::pp::SIG_STRIP_GLUE.to_string() } else { SIG_F12.to_string() })
     };
-    for (which, r) in [("preprocess", r1), ("preprocess_str", r2)] {
+    for (which, r) in [("preprocess", r1), ("preprocess_str", r2), ("preprocess(strip_comments)", r3)] {
         let r = match r {
             Ok(r) => r,
             Err(pn) => {
@@ -221,22 +232,25 @@ pub fn one(acc: &mut Acc, c: &IncCase) {
                 let got = crate::models::lexref::significant(pt.text()).unwrap_or_default();
                 if want != got {
                     acc.class("violation");
-                    let sg = sig_f12(acc);
+                    let sg = sig_f12(acc, which);
                     acc.violation(sg, case(), format!("{}: output tokens differ\nexpected: {:?}\ngot:      {:?}\ntop:\n{}", which, want, got, top_src));
                     return;
                 }
                 if table_sig(&table) != defs_table_sig(&d) {
                     acc.class("violation");
-                    let sg = sig_f12(acc);
+                    let sg = sig_f12(acc, which);
                     acc.violation(sg, case(), format!("{}: define table differs\nexpected: {:?}\ngot:      {:?}\ntop:\n{}", which, table_sig(&table), defs_table_sig(&d), top_src));
                     return;
+                }
+                if which.ends_with(")") {
+                    continue; // (origins under strip_comments are C18's / C03's business)
                 }
                 // origins of copied tokens name the file they were copied from
                 let wl = expected_lexemes(&pieces);
                 let vfs = &w.vfs;
                 if let Err((_, m)) = crate::props::c03::check_origins_with(&pt, &wl, &|f| vfs.files.get(f).map(|x| x.1.text.clone()), &|f, o| vfs.files.get(f).map(|x| x.1.pos.iter().filter_map(|p| p.body).any(|(b, e)| b <= o && o < e)).unwrap_or(false)) {
                     acc.class("violation");
-                    let sg = sig_f12(acc);
+                    let sg = sig_f12(acc, which);
                     acc.violation(sg, case(), format!("{}: {}\ntop:\n{}\noutput: {:?}", which, m, top_src, clip(pt.text(), 300)));
                     return;
                 }
@@ -245,20 +259,20 @@ pub fn one(acc: &mut Acc, c: &IncCase) {
                 acc.class("error-as-predicted");
                 if perr_sig(e) != err_sig(&ge) {
                     acc.class("violation");
-                    let sg = sig_f12(acc);
+                    let sg = sig_f12(acc, which);
                     acc.violation(sg, case(), format!("{}: error differs: expected {}, got {}\ntop:\n{}", which, perr_sig(e), err_sig(&ge), top_src));
                     return;
                 }
             }
             (Ok(()), Err(ge)) => {
                 acc.class("violation");
-                let sg = sig_f12(acc);
+                let sg = sig_f12(acc, which);
                     acc.violation(sg, case(), format!("{}: unexpected error {}\ntop:\n{}", which, err_sig(&ge), top_src));
                 return;
             }
             (Err(e), Ok((pt, _))) => {
                 acc.class("violation");
-                let sg = sig_f12(acc);
+                let sg = sig_f12(acc, which);
                     acc.violation(sg, case(), format!("{}: expected {}, got output {:?}\ntop:\n{}", which, perr_sig(e), clip(pt.text(), 200), top_src));
                 return;
             }
@@ -374,7 +388,7 @@ pub fn cases(tier: Tier) -> Space<IncCase> {
 
 pub fn build(tier: Tier) -> Check<'static> {
     let mut c = Check::new("C10", tier, "6/C10");
-    c.rule = "real files: a.svh present in every subset of {cwd, inc1, inc2} (copies carry different marker tokens) x 5 include-path lists x 7 contents (text, define, undef of an outer macro, include guard, nested include of b.svh, usage of an outer macro, usage of an undefined macro) x 3 directive styles (quote, angle, via macro) x once/twice x ignore_include x relative/absolute name x placements of b.svh x layouts x 3 endings of the included files (line end, none, a // comment without line end); through preprocess and preprocess_str; plus 12 same-line forms x ignore_include and the in-expansion `include; non-trivial = model and implementation agree on a result, distinct by construction".into();
+    c.rule = "real files: a.svh present in every subset of {cwd, inc1, inc2} (copies carry different marker tokens) x 5 include-path lists x 7 contents (text, define, undef of an outer macro, include guard, nested include of b.svh, usage of an outer macro, usage of an undefined macro) x 3 directive styles (quote, angle, via macro) x once/twice x ignore_include x relative/absolute name x placements of b.svh x layouts x 3 endings of the included files (line end, none, a // comment without line end); through preprocess (strip_comments off and on) and preprocess_str; plus 12 same-line forms x ignore_include and the in-expansion `include; non-trivial = model and implementation agree on a result, distinct by construction".into();
     c.assumptions = vec![
         "the process changes its working directory to /verif/.work/C10/cwd; file names are unique per worker thread".into(),
         "reference preprocessor models/ppref.rs with the search rule exactly as the property states it".into(),
